@@ -78,6 +78,9 @@ func exact(b []byte) []byte { // a copy with cap == len
 }
 
 func c08Impl(in []int64) []int64 {
+	if c08IsLong(in) {
+		return c08LongImpl(in)
+	}
 	kind, a, b, c, d := in[0], in[1], in[2], in[3], in[4]
 	l1, r := GetList(in[6:])
 	l2, r := GetList(r)
@@ -239,6 +242,8 @@ func stdOracle(q []int64) []int64 {
 			return []int64{0}
 		}
 		return append([]int64{1}, Bytes(p)...)
+	case 20: // long CBC messages (Run/C108.v): length and digest of the expected bytes
+		return c08LongOracle(q)
 	case 5, 6: // whole-message CBC without padding
 		a := qLists(q[1:], 3)
 		blk, err := aes.NewCipher(a[0])
@@ -310,6 +315,7 @@ func pkcs7Ref(p []byte, bs int) []byte {
 var c08KeySizes = []int{16, 24, 32}
 
 func c08Gen(c *Ctx) {
+	c08LongGen(c) // long CBC messages (harness/c08long.go, Run/C108.v)
 	// A. length helpers
 	c.Each(4*c.N(260, 3000), func(i int, t *T) {
 		w, n := int64(i%4), int64(i/4)
@@ -688,6 +694,9 @@ func c08Describe(in []int64) string {
 	if len(in) < 6 {
 		return "?"
 	}
+	if c08IsLong(in) {
+		return c08LongDescribe(in)
+	}
 	names := []string{"Len", "AESCBCEncrypt", "AESCBCDecrypt", "AESGCMEncrypt", "AESGCMDecrypt", "PKCS7Padding", "PKCS7UnPadding", "PKCS5Padding", "PKCS5UnPadding"}
 	k := int(in[0])
 	if k < 0 || k >= len(names) {
@@ -710,7 +719,7 @@ func c08Describe(in []int64) string {
 
 // shrink: drop bytes of the data of the PKCS kinds; for the AES kinds shorten the message by whole blocks
 func c08Shrink(in []int64) [][]int64 {
-	if len(in) < 6 {
+	if len(in) < 6 || c08IsLong(in) {
 		return nil
 	}
 	var out [][]int64
@@ -749,6 +758,6 @@ func c08Shrink(in []int64) [][]int64 {
 
 func init() {
 	Register(&Prop{ID: "C08", Pure: true, Num: 8, SpecMode: "rel", Gen: c08Gen, Impl: c08Impl, Oracle: stdOracle,
-		Shrink: c08Shrink, Describe: c08Describe,
-		Rule: "length helpers on 0..200 and random lengths; AESCBCEncrypt/AESCBCDecrypt/AESGCMEncrypt/AESGCMDecrypt with keys of 16/24/32 bytes, every message length 0..80 (thorough 0..200), three memory layouts (dst before src, src before dst, same start = documented in-place use) inside one backing array whose whole final content is compared; un-padding inside CBC decryption for every last-byte value in {0..18,32,255} x {all pad bytes right, one pad byte wrong at each position, random}; misuse (bad key sizes, IV/nonce lengths, short/long dst, inexact overlap, illegal ciphertext lengths); every single-bit corruption of ciphertext, tag, nonce, additional data of GCM messages (must be rejected); PKCS7Padding/UnPadding exhaustively on short strings over {0,1,2,3,16,17,255} x block sizes {-1,0,1,2,3,4,8,16,17,255,256,300} and randomly (round trips, damaged paddings, block sizes > 255, PKCS5). The model computes with the real AES/GCM through the oracle table; the judge uses cipher.NewCBCEncrypter/Decrypter and GCM Seal/Open of the standard library as the specification. distinct = distinct case; non-trivial = the case gets past the first argument guard (non-empty data / positive block size / any AES case)"})
+		Shrink: c08Shrink, Describe: c08Describe, NumOf: c08NumOf, XProj: c08XProj,
+		Rule: "LONG CBC messages (kinds 11/12, Run/C108.v): AESCBCEncrypt / AESCBCDecrypt on every length 1 MiB-16 .. 1 MiB+33, 2 MiB+5 and lengths around 2^16..2^19 (thorough: up to 16 MiB), dst separate / in place / with spare capacity / nil, the text generated from a seed on both sides, every output byte judged through length + FNV-1a 64 against the standard library's whole-message CBC, the model side on code and length; length helpers on 0..200 and random lengths; AESCBCEncrypt/AESCBCDecrypt/AESGCMEncrypt/AESGCMDecrypt with keys of 16/24/32 bytes, every message length 0..80 (thorough 0..200), three memory layouts (dst before src, src before dst, same start = documented in-place use) inside one backing array whose whole final content is compared; un-padding inside CBC decryption for every last-byte value in {0..18,32,255} x {all pad bytes right, one pad byte wrong at each position, random}; misuse (bad key sizes, IV/nonce lengths, short/long dst, inexact overlap, illegal ciphertext lengths); every single-bit corruption of ciphertext, tag, nonce, additional data of GCM messages (must be rejected); PKCS7Padding/UnPadding exhaustively on short strings over {0,1,2,3,16,17,255} x block sizes {-1,0,1,2,3,4,8,16,17,255,256,300} and randomly (round trips, damaged paddings, block sizes > 255, PKCS5). The model computes with the real AES/GCM through the oracle table; the judge uses cipher.NewCBCEncrypter/Decrypter and GCM Seal/Open of the standard library as the specification. distinct = distinct case; non-trivial = the case gets past the first argument guard (non-empty data / positive block size / any AES case)"})
 }
